@@ -442,6 +442,16 @@ TTool ==
                \* what `-t inputs` and `-t targets all` print is the graph the manifest defines
                \cup (IF E.tool = "inputs" /\ E.rc = 0 /\ "ins" \in DOMAIN E /\ NoDyndep(g) /\ (ToS(E.ins) # ToolInputs(g, tg) \/ ~E.sorted \/ Len(E.ins) # Cardinality(ToS(E.ins)))
                      THEN {V("C19", "-t inputs does not list exactly the inputs the manifest names for the targets, each once, in order", "")} ELSE {})
+               \cup (IF E.tool = "multi-inputs" /\ E.rc = 0 /\ "pairs" \in DOMAIN E /\ NoDyndep(g)
+                      /\ (ToS(E.pairs) # UNION {{t \o ">" \o f : f \in ToolInputs(g, {t})} : t \in tg})   \* (a target named twice is answered twice)
+                     THEN {V("C19", "-t multi-inputs does not list, per target, exactly the inputs the manifest names for it", "")} ELSE {})
+               \cup (IF E.tool = "rules" /\ E.rc = 0 /\ "rules" \in DOMAIN E
+                      /\ (ToS(E.rules) # {"phony"} \cup {RuleName(St(g, i)) : i \in Ids(g)} \/ Len(E.rules) # Cardinality(ToS(E.rules)))
+                     THEN {V("C19", "-t rules does not list the rules of the manifest (and phony), each once", "")} ELSE {})
+               \cup (IF E.tool = "targets-rule" /\ E.rc = 0 /\ "routs" \in DOMAIN E
+                      /\ (ToS(E.routs) # UNION {ToS(St(g, i).outs) \cup ToS(St(g, i).iouts) : i \in {x \in Ids(g) : RuleName(St(g, x)) = E.rule}}
+                          \/ ~E.sorted \/ Len(E.routs) # Cardinality(ToS(E.routs)))
+                     THEN {V("C19", "-t targets rule does not list exactly the outputs of the statements that use the rule, in order", "")} ELSE {})
                \cup (IF E.tool = "targets-all" /\ E.rc = 0 /\ "tall" \in DOMAIN E /\ (ToS(E.tall) # ToolTargetsAll(g) \/ Len(E.tall) # Cardinality(ToS(E.tall)))
                      THEN {V("C19", "-t targets all does not list every output of the manifest once with its rule", "")} ELSE {})
                \cup (IF E.json = "bad" THEN {V("C19", "compdb output is not valid JSON: -t " \o E.tool, "")} ELSE {})
